@@ -808,7 +808,13 @@ def error_norm_rms_then_scale(norm_order=None) -> Callable:
         return norm_abs / (atol + rtol * norm_ref)
 
     def rms(s):
-        return linalg.vector_norm(s, order=norm_order) / np.sqrt(s.size)
+        # The p-norm divided by size^(1/p): a power mean, and the
+        # root-mean-square norm for p = 2. Dividing by sqrt(size) for every p
+        # would make the result depend on how often an entry is repeated, and
+        # the isotropic model reports one error per Taylor coefficient where
+        # the dense model reports the same number once per dimension.
+        p = 2 if norm_order is None else norm_order
+        return linalg.vector_norm(s, order=norm_order) / s.size ** (1 / p)
 
     return normalize
 
